@@ -8,14 +8,60 @@ use crate::{
     scenario::{Op, ReplayFile, Scenario},
 };
 
-fn same_failure(rf: &ReplayFile, sc: &Scenario, dec: &Option<Vec<simkit::sched::Decision>>) -> Option<(String, Option<String>)> {
-    let out = run_scenario(sc, dec.as_deref());
-    let f = out.failure?;
-    if f.class == rf.class && f.known.is_some() == rf.known.is_some() {
-        Some((f.msg, f.known))
+fn judge(rf: &ReplayFile, class: &str, msg: &str, known: &Option<String>) -> Option<(String, Option<String>)> {
+    // panics and hangs must keep their signature, so that the minimiser
+    // cannot slide into a different failure of the same class
+    let sig = |m: &str| -> String {
+        let m = m.split(" at /").next().unwrap_or(m);
+        m.chars().filter(|c| !c.is_ascii_digit()).take(90).collect()
+    };
+    let same_sig = !matches!(rf.class.as_str(), "panic" | "harness_error") || sig(msg) == sig(&rf.message);
+    if class == rf.class && known.is_some() == rf.known.is_some() && same_sig {
+        Some((msg.to_string(), known.clone()))
     } else {
         None
     }
+}
+
+fn same_failure(rf: &ReplayFile, sc: &Scenario, dec: &Option<Vec<simkit::sched::Decision>>) -> Option<(String, Option<String>)> {
+    if rf.class == "stuck" || std::env::var("VERIF_SHRINK_ISOLATE").is_ok() {
+        return same_failure_isolated(rf, sc, dec);
+    }
+    let out = run_scenario(sc, dec.as_deref());
+    let f = out.failure?;
+    judge(rf, &f.class, &f.msg, &f.known)
+}
+
+/// Run the candidate in a child process: a candidate that blocks or aborts
+/// the process is survivable.
+fn same_failure_isolated(rf: &ReplayFile, sc: &Scenario, dec: &Option<Vec<simkit::sched::Decision>>) -> Option<(String, Option<String>)> {
+    let mut cand = rf.clone();
+    cand.scenario = sc.clone();
+    cand.decisions = dec.clone();
+    let path = std::env::temp_dir().join(format!("verif_shrink_{}_{}.json", std::process::id(), rf.seed));
+    std::fs::write(&path, serde_json::to_string(&cand).ok()?).ok()?;
+    let exe = std::env::current_exe().ok()?;
+    let out = std::process::Command::new(exe)
+        .arg("replay")
+        .arg(&path)
+        .env("VERIF_STUCK_S", "3")
+        .stderr(std::process::Stdio::null())
+        .output()
+        .ok()?;
+    let _ = std::fs::remove_file(&path);
+    let text = String::from_utf8_lossy(&out.stdout);
+    for line in text.lines() {
+        if let Ok(j) = serde_json::from_str::<serde_json::Value>(line) {
+            if j.get("type").and_then(|t| t.as_str()) == Some("replay") {
+                let class = j.get("class").and_then(|c| c.as_str()).unwrap_or("none").to_string();
+                let msg = j.get("message").and_then(|c| c.as_str()).unwrap_or("").to_string();
+                let known = j.get("known").and_then(|c| c.as_str()).map(str::to_string);
+                return judge(rf, &class, &msg, &known);
+            }
+        }
+    }
+    // the child died without a verdict: an abort of the process
+    judge(rf, "abort", "process aborted", &None)
 }
 
 fn op_mentions(op: &Op, n: u32) -> bool {
